@@ -510,6 +510,7 @@ func bigBatch(pf *Profile, r *simrt.Rand, tier string) bool {
 	pf.Cancellers, pf.Waiters, pf.Samplers = [2]int{0, 0}, [2]int{0, 0}, [2]int{0, 0}
 	pf.Releaser, pf.WarmPct = 0, 0
 	pf.SmallChunksPct = 50
+	pf.ReenterPct, pf.WrapDeqPct, pf.PreloadPct = 0, 0, 0
 	return true
 }
 
@@ -545,6 +546,12 @@ func init() {
 				pf.GatedPct, pf.DelayPct, pf.BatchPct = 0, 0, 0
 				pf.Ctrl, pf.Cancellers = nil, [2]int{0, 0}
 				pf.QKinds = []int{qkStd}
+			}
+			if bigBatch(pf, r, tier) {
+				// error/result workers publish into the batch's stream before the slot is given
+				// back: with more items than any fixed stream size plus the concurrency, items
+				// beyond that would never be invoked if a publish could block for want of a reader
+				pf.BatchMin, pf.BatchMax = 1031, 1040
 			}
 			return generate(r, pf)
 		},
@@ -615,6 +622,14 @@ func init() {
 				pf.Ctrl = []wop{{opCancelCtx, 3}, {opStop, 1}, {opRestart, 1}}
 				pf.CtrlOps = [2]int{1, 2}
 				pf.Releaser = 100
+			} else if r.Chance(15) {
+				// idle-worker expiry: pool goroutines are retired between jobs while others are
+				// being handed a job; a handle whose job went to a retired goroutine never completes
+				pf.Expiry, pf.TickW = []int{1, 50}, []int{2, 10}
+				pf.Conc, pf.Ratio = []int{2, 3, 4, 8}, []int{0, 1, 50}
+				pf.WarmPct = 60
+				pf.Ctrl = []wop{{opAdvance, 3}, {opSettle, 1}}
+				pf.CtrlOps = [2]int{1, 4}
 			}
 			bigBatch(pf, r, tier)
 			c, p := generate(r, pf)
@@ -770,6 +785,24 @@ func init() {
 					ops = append(ops, Op{K: pickW(r, []wop{{opStop, 4}, {opPauseAndWait, 2}, {opWaitAndStop, 1}})})
 				}
 				p.Tasks = append(p.Tasks, ops)
+				return c, p
+			case 5:
+				// a paused worker, then a Stop (or the cancellation of its context) racing one or two
+				// Resume calls: whoever loses must be told what really happened (checkResumeReport)
+				pf.UseCtxPct = 30
+				pf.Ctrl, pf.CtrlOps = nil, [2]int{0, 0}
+				pf.WarmPct = 0
+				c, p := generate(r, pf)
+				first := Op{K: pickW(r, []wop{{opPauseAndWait, 2}, {opPause, 1}})}
+				p.Tasks = append(p.Tasks, []Op{first, {K: opSettle}, {K: opWarmDone}})
+				stop := []wop{{opStop, 4}, {opWaitAndStop, 1}}
+				if c.UseCtx {
+					stop = append(stop, wop{opCancelCtx, 3})
+				}
+				p.Tasks = append(p.Tasks, []Op{{K: opAwaitWarm}, {K: pickW(r, stop)}, {K: opSettle}, {K: opRestart}})
+				for i, n := 0, 1+r.Intn(2); i < n; i++ {
+					p.Tasks = append(p.Tasks, []Op{{K: opAwaitWarm}, {K: opResume}})
+				}
 				return c, p
 			}
 			return generate(r, pf)
